@@ -219,8 +219,20 @@ def run_replay(path, timeout=300):
     env = dict(os.environ)
     env['PYTHONWARNINGS'] = 'ignore'
     env['PYTHONDONTWRITEBYTECODE'] = '1'
+    # The script runs with /verif importable; exit 1 must come from the script's own sys.exit(1): an uncaught exception
+    # (which Python also turns into exit status 1) is a crashed replay (status 4), never a reproduced violation.
+    env['PYTHONPATH'] = ROOT + os.pathsep + env.get('PYTHONPATH', '')
+    runner = ('import runpy, sys, traceback\n'
+              'sys.argv = [%r]\n'
+              'try:\n'
+              '    runpy.run_path(%r, run_name="__main__")\n'
+              'except SystemExit:\n'
+              '    raise\n'
+              'except BaseException:\n'
+              '    traceback.print_exc()\n'
+              '    sys.stdout.flush(); sys.exit(4)\n' % (path, path))
     try:
-        p = subprocess.run([PY, path], capture_output=True, text=True, timeout=timeout, env=env, cwd=ROOT)
+        p = subprocess.run([PY, '-c', runner], capture_output=True, text=True, timeout=timeout, env=env, cwd=ROOT)
         return p.returncode, p.stdout + p.stderr
     except subprocess.TimeoutExpired:
         return 3, 'timeout'
